@@ -233,9 +233,22 @@ def local_class_names(fn, module_classes):
     for n in ast.walk(fn):
         if isinstance(n, ast.Assign) and isinstance(n.value, ast.Call):
             f = wcb(spell(n.value.func))
-            if (f == "namedtuple" or f.endswith(".namedtuple")) and len(n.targets) == 1 and isinstance(n.targets[0], ast.Name):
+            if (f == "namedtuple" or f.endswith(".namedtuple")) and len(n.targets) == 1 and isinstance(n.targets[0], ast.Name) \
+                    and valid_namedtuple_declaration(n.value):
                 names.add(n.targets[0].id)
     return names
+
+
+def valid_namedtuple_declaration(call: ast.Call):
+    """namedtuple('N', ['a', 'b']) or namedtuple('N', 'a b'): the declarations that define a class."""
+    if len(call.args) != 2:
+        return False
+    second = call.args[1]
+    if isinstance(second, ast.List):
+        return all(is_str_const(e) for e in second.elts)
+    if is_str_const(second):
+        return second.value == "" or all(p.isidentifier() for p in second.value.split(" "))
+    return False
 
 
 def expected_self(call, pm, class_name):
